@@ -16,7 +16,8 @@ WBS.critical_path through the call graph, so renaming its private methods does n
                    latest(link.end) - units with the node's earliest time at the sink, one common sink, forward pass
                    before backward pass before selection, slack = latest(end) - earliest(start) - units, result in arc
                    order
-  C12.pure         writes*(WBS.critical_path) is empty: every store in its reach goes to objects the call allocates
+  C12.pure         writes*(WBS.critical_path) is empty: every store in its reach goes to objects the call allocates; every
+                   return of WBS.critical_path is <new calculator>.calc() (no result kept on the WBS / memoised)
   C12.inherit      arcs come from predecessors of the task *and of all its ancestors*, each expanded to its leaves
 
 Not decided: exactness of the longest-path result as a number (magnitude of the tolerance - a constant above 1e-3 is
@@ -671,6 +672,7 @@ def _leaf_helper_checker(ctx, R: Roles, cache: dict):
             return False
         return verify(t)
 
+    checker.resolve = target_of
     return checker
 
 
@@ -1320,12 +1322,14 @@ def _check_pass(ctx, R, o, p: Func, what: str, field, op, links, far, sign, othe
         if not same(ex.expand(loop2.iter, h2), fo.iter):
             verdicts.append(('wrongloop', c, f"recursion ranges over `{src(loop2.iter)}`, the fold over `{src(fo.iter)}`"))
             continue
-        if not match(f"{v2}.{far}", c.args[0]):
-            verdicts.append(('wrongarg', c, f"recurses on `{src(c.args[0])}` instead of {v2}.{far}"))
+        arg = ex.expand(c.args[0], rn, stop={v2})       # `prev = link.start; self.__forward(prev)`
+        if not match(f"{v2}.{far}", arg):
+            verdicts.append(('wrongarg', c, f"recurses on `{src(arg)}` instead of {v2}.{far}"))
             continue
         cs = [(t, pp) for t, pp in cfg.conditions(rn) if cfg.node_containing(t) is not None and
               cfg.dominates(h2, cfg.node_containing(t)) and cfg.node_containing(t) is not h2]
-        weird = [(t, pp) for t, pp in cs if not ((lambda nt: nt and nt[1] and match(f"{v2}.{far}.{field}", nt[0]))(none_test(t, pp)))]
+        weird = [(t, pp) for t, pp in cs if not ((lambda nt: nt and nt[1] and match(
+            f"{v2}.{far}.{field}", ex.expand(nt[0], cfg.node_containing(t), stop={v2})))(none_test(t, pp)))]
         if weird:
             verdicts.append(('unknown', c, "recursion under an unrecognised condition"))
         elif loop2 is fo.loop:
@@ -1621,6 +1625,26 @@ def _pure(ctx, R: Roles, o):
                  + ' -> '.join(chain[-3:]))
     if not ws:
         o.site(entry, entry.node, f"writes*(WBS.critical_path) = {{}} over {len(reach)} reachable functions")
+    # the result is computed from the current graph on every call: every return is <new calculator>.calc(), unconditionally
+    ecfg = cfg_of(entry)
+    exe = Expander(prog, entry, ctx.typer, inline=False)
+    for r in [n for n in walk_no_nested(entry.node) if isinstance(n, ast.Return)]:
+        rn = ecfg.node_of(r)
+        if rn is None or not ecfg.is_reachable(rn):
+            continue
+        v = exe.expand(r.value, rn) if r.value is not None else None
+        fresh_calc = isinstance(v, ast.Call) and isinstance(v.func, ast.Attribute) and isinstance(v.func.value, ast.Call) \
+            and getattr(v.func.value.func, 'id', None) == R.cls and unmangle(v.func.attr) == R.calc.name
+        if fresh_calc and not ecfg.conditions(rn):
+            o.site(entry, r, f"returns {src(v)[:80]}: computed from the current graph on every call")
+        elif fresh_calc:
+            o.undecided(entry, r, r, "the calculation is returned only under a condition")
+        elif v is not None and any(isinstance(n, ast.Attribute) and isinstance(n.value, ast.Name) and n.value.id == entry.self_name
+                                   and not ctx.prog.find_getter(entry.cls, unmangle(n.attr)) for n in ast.walk(v)):
+            o.refute(entry, r, r.value, f"WBS.critical_path returns stored state `{src(r.value)}` instead of a result computed from the "
+                                        f"current graph: a cached path goes stale when links, hierarchy or amounts change")
+        else:
+            o.undecided(entry, r, r, "returned value is not <new calculator>.calc()")
     own = [f for f in reach if f.module is R.mod]
     own_classes = {R.cls, R.node_cls, R.link_cls}
     for f in own:
